@@ -53,14 +53,31 @@ CLAIMS["C19"] = ("proof", "Guard table: decorate_with_checker raises TypeError f
                  "invariant.__init__ raises ValueError for coroutine-function conditions and foreign mandatory arguments; the error validation in all "
                  "three decorators; Snapshot.__init__ and snapshot.__call__ (no postcondition, duplicate names).", "8 C19")
 
+CLAIMS["C04"] = ("proof", "_decorate_namespace_function is proved against the effective contracts written from the statement (preconditions: "
+                 "nothing inherited if a base providing the member declares none, else the bases' groups in order then the own group; TypeError "
+                 "when weakening nothing; postconditions and snapshots concatenated, duplicate names rejected; constructors inherit nothing; "
+                 "an existing checker is kept, a new one wraps the function in the same static/class-method kind); the four _collapse_* helpers, "
+                 "_dbc_decorate_namespace (every function/property member dispatched exactly once, in order) and DBCMeta.__new__ (order: merge, "
+                 "type.__new__, invariant wrapping iff the class has invariants, registration) are proved; how the merged lists are *evaluated* "
+                 "(OR of groups, AND of postconditions) is the contract of the walks. _decorate_namespace_property is an assumed contract.", "8 C04")
+CLAIMS["C17"] = ("proof", "Frame obligations: in every unit that defines a class or decorates a function, no pre-existing list object is mutated "
+                 "except the lists owned by the checker/class being decorated (merged lists are fresh objects; invariant.__call__ appends only to "
+                 "lists in the class's own namespace; _collapse_invariants gives a subclass its own list whenever a base has one), no namespace "
+                 "other than the new class's is written, and the only attributes rebound are the three lists of the member's own checker.", "8 C17")
+CLAIMS["C18"] = ("proof", "The lists introspection shows are the effective contracts (post of _decorate_namespace_function / _collapse_invariants / "
+                 "add_*_to_checker); find_checker returns the innermost object carrying the lists; both checker closures read the three lists from "
+                 "that very object at call time (closure fact wrapper is the checker itself + _unpack_pre_snap_posts) and judge a call exactly as the "
+                 "walk specifications say; DBCMeta.__new__ emits exactly one registration event iff the class is defined outside icontract._metaclass.", "8 C18")
+CLAIMS["C14"] = ("proof", "Identity clauses of all six wrappers (the body receives the identical args/kwargs objects, the caller the identical result or "
+                 "exception object), decorate_with_checker (update_wrapper contract: name/qualname/doc/module/annotations/__dict__/__wrapped__, async "
+                 "closure iff coroutine function), find_checker + require/ensure/snapshot.__call__ (single checker, argument returned when a checker "
+                 "exists), invariant.__call__ (returns the very class). Not covered: add_invariant_checks' constructor choice and the object.__new__ "
+                 "argument rule (finding F13 is recorded in DESIGN.md, no check claims it yet).", "8 C14")
+
 NOT_YET = {
     "C03": "invariant wrappers and add_invariant_checks not yet under contract in this round",
-    "C04": "metaclass merge units not yet under contract in this round",
     "C06": "interpreter units (_recompute.Visitor) not yet under contract",
     "C07": "interpreter and decorator-inspection units not yet under contract",
-    "C14": "decorating units (update_wrapper, find_checker) not yet under contract",
-    "C17": "class-heap frame obligations not yet built",
-    "C18": "depends on C04/C14 units",
     "C20": "repr_values / _represent units not yet under contract",
 }
 
@@ -73,7 +90,7 @@ def main():
             "quick_cmd": "./check %s --tier quick" % pid,
             "thorough_cmd": "./check %s --tier thorough" % pid,
             "evidence_file": "/verif/evidence/%s.json" % pid,
-            "replay_cmd_template": "PYTHONPATH=/repo /venv/bin/python /verif/replay/%s --scenario {path}" % ({"C05": "bindfam.py", "C12": "ctxfam.py", "C15": "defnfam.py", "C19": "defnfam.py"}.get(pid, "callfam.py")),
+            "replay_cmd_template": "PYTHONPATH=/repo /venv/bin/python /verif/replay/%s --scenario {path}" % ({"C05": "bindfam.py", "C12": "ctxfam.py", "C15": "defnfam.py", "C19": "defnfam.py", "C14": "defnfam.py", "C04": "histfam.py", "C17": "histfam.py", "C18": "histfam.py"}.get(pid, "callfam.py")),
             "engine": "pyvc",
             "level_claimed": {"category": cat, "text": text + " The units under contract are listed with their AST hashes in the evidence file.", "design_ref": "DESIGN.md section " + ref},
             "level_note": TRUST,
